@@ -152,6 +152,7 @@ def run(ctx):
     cases = []
     for s, w in valcases.scalar_corpus() + valcases.schema_batch(ctx, ctx.n(80, 600), customs=True):
         cases += valcases.value_cases(ctx, s, w, perturb=ctx.n(14, 40), zoo=ctx.n(2, 6), inject=ctx.n(6, 14))
+    cases += valcases.list_form_value_cases(ctx)
     for c in cases:
         valcorr.run_real(c)
         valcorr.prepare(c)
